@@ -47,13 +47,24 @@ def decode_key(spec):
     return v
 
 
+def decode_val(v):
+    """{'np': 'uint32', 'v': 41} -> numpy.uint32(41): values of another numeric type that a typed state converts"""
+    if isinstance(v, dict) and set(v) == {'np', 'v'}:
+        import numpy
+        return getattr(numpy, v['np'])(v['v'])
+    return v
+
+
 def rand_value(r, dt):
+    # typed states CONVERT what they are given: a bool or a numpy scalar written to an int / uint / float state reads
+    # back as a plain int / float of the same value
     if dt == 'int':
-        return r.choice([0, 1, -1, 2**62, -2**63, 2**63 - 1, r.randint(-10**9, 10**9)])
+        return r.choice([0, 1, -1, 2**62, -2**63, 2**63 - 1, r.randint(-10**9, 10**9), True, False, {'np': 'int64', 'v': -5}, {'np': 'int32', 'v': 7}])
     if dt == 'uint':
-        return r.choice([0, 1, 2**64 - 1, r.randint(0, 10**12)])
+        return r.choice([0, 1, 2**64 - 1, r.randint(0, 10**12), True, False, {'np': 'uint32', 'v': 41}, {'np': 'int64', 'v': 9}])
     if dt == 'float':
-        return r.choice([0.0, -0.0, 0.0, -0.0, 1.5, -2.5e300, 5e-324, r.uniform(-1e6, 1e6), 3, 1, 1.0])
+        return r.choice([0.0, -0.0, 0.0, -0.0, 1.5, -2.5e300, 5e-324, r.uniform(-1e6, 1e6), 3, 1, 1.0, True, {'np': 'float64', 'v': 2.5},
+                         {'np': 'float32', 'v': 0.5}, {'np': 'int64', 'v': 3}])
     if dt == 'bool':
         return r.random() < 0.5
     return r.choice([None, 0, '', 'x', [1, 2], {'a': 1}, [], False, 7.5, [None], 1, 1.0, True, 0.0, -0.0, 1, 1.0, True, [1], [1.0], [True]])
@@ -328,7 +339,7 @@ class C14(Check):
                     call(s, 'del_key', key)
                     deleted.add((s, i))
                 elif op == 'set':
-                    call(s, 'set', key, arg)
+                    call(s, 'set', key, decode_val(arg))
                 elif op == 'get':
                     call(s, 'get', key)
                 elif op == 'iterate':
@@ -380,7 +391,7 @@ class C14(Check):
                     call(s, 'del_key', key)
                     deleted.add((s, j))
                 else:
-                    call(s, 'set', key, a)
+                    call(s, 'set', key, decode_val(a))
             if done:
                 break
             try:
